@@ -5,12 +5,32 @@ use crate::utf8::Utf8Accum;
 /// For example, in text `abc` `b` has both char and byte index of `1`.
 /// But in text `вгд` `г` has char index of 1, but byte index of `2` (`в` is 2 bytes long)
 pub fn char_byte_index(text: &str, char_index: usize) -> Option<usize> {
+//@ ensures
+//@     char_index < text@.len() ==> r == Some(byte_off(text@, char_index as int) as usize),   // [C05,C17]
+//@     char_index >= text@.len() ==> r is None,   // [C05,C17]
+//@     r is Some ==> r.unwrap() < text.spec_bytes().len() && is_char_boundary(text.spec_bytes(), r.unwrap() as int),  // [C02,C05]
     let mut accum = Utf8Accum::default();
     let mut byte_index = 0;
     let mut current = 0;
+//@ let ghost bytes = text.spec_bytes();
+//@ proof {
+//@     broadcast use axiom_str_len_bound;
+//@     encode_utf8_valid_utf8(text@); encode_utf8_decode_utf8(text@); lemma_scan_valid(bytes);
+//@ }
     for __i in 0..text.as_bytes().len() {
+//@ invariant
+//@     bytes == text.spec_bytes(), valid_utf8(bytes), decode_utf8(bytes) == text@,
+//@     accum.wf(),
+//@     (accum.pending(), current as nat) == scan(Seq::empty(), bytes.subrange(0, __i as int)),
+//@     byte_index == __i, current <= char_index, current <= __i,
+//@     current == char_index ==> accum.pending().len() == 0,
         let b = text.as_bytes()[__i];
+//@ proof { assert(bytes.subrange(0, __i + 1).drop_last() =~= bytes.subrange(0, __i as int)); }
         if char_index == current {
+//@ proof {
+//@     lemma_scan_prefix(bytes, __i as int);
+//@     lemma_boundary_offset(bytes, __i as int);
+//@ }
             return Some(byte_index);
         }
         if accum.push_byte(b).is_some() {
@@ -18,6 +38,9 @@ pub fn char_byte_index(text: &str, char_index: usize) -> Option<usize> {
         }
         byte_index += 1;
     }
+//@ proof {
+//@     assert(bytes.subrange(0, bytes.len() as int) =~= bytes);
+//@ }
     if char_index == current && byte_index < text.len() {
         return Some(byte_index);
     }
@@ -25,23 +48,42 @@ pub fn char_byte_index(text: &str, char_index: usize) -> Option<usize> {
 }
 
 pub fn char_count(text: &str) -> usize {
+//@ ensures r == text@.len(),   // [C05,C17]
     let mut accum = Utf8Accum::default();
     let mut count = 0;
+//@ let ghost bytes = text.spec_bytes();
+//@ proof { encode_utf8_valid_utf8(text@); encode_utf8_decode_utf8(text@); lemma_scan_valid(bytes); }
     for __i in 0..text.as_bytes().len() {
+//@ invariant
+//@     bytes == text.spec_bytes(), accum.wf(), count <= __i,
+//@     (accum.pending(), count as nat) == scan(Seq::empty(), bytes.subrange(0, __i as int)),
         let b = text.as_bytes()[__i];
+//@ proof { assert(bytes.subrange(0, __i + 1).drop_last() =~= bytes.subrange(0, __i as int)); }
         if accum.push_byte(b).is_some() {
             count += 1;
         }
     }
+//@ proof { assert(bytes.subrange(0, bytes.len() as int) =~= bytes); }
     count
 }
 
 pub fn char_pop_front(text: &str) -> Option<(char, &str)> {
+//@ ensures
+//@     text@.len() == 0 ==> r is None,   // [C08]
+//@     text@.len() > 0 ==> r is Some && r.unwrap().0 == text@[0] && r.unwrap().1@ == text@.drop_first(),  // [C08,C17]
     if text.is_empty() {
         None
     } else {
         let bytes = text.as_bytes();
         let first = bytes[0];
+//@ let ghost s = text.spec_bytes();
+//@ let ghost n = length_of_first_scalar(s);
+//@ proof {
+//@     encode_utf8_valid_utf8(text@); encode_utf8_decode_utf8(text@);
+//@     encode_utf8_first_scalar(text@);
+//@     lemma_second_ok_or_ascii(s);
+//@     lemma_pop_front_bits(s);
+//@ }
 
         let mut codepoint = if first < 0x80 {
             first as u32
@@ -52,13 +94,40 @@ pub fn char_pop_front(text: &str) -> Option<(char, &str)> {
         };
 
         let mut bytes = &bytes[1..];
+//@ let ghost mut k: int = 1;
+//@ proof { assert(is_char_boundary(pop_first_scalar(s), 0)); assert(is_char_boundary(s, n)); }
         // go over all other bytes and add merge into codepoint
         while !bytes.is_empty() && (bytes[0] & 0xC0) == 0x80 {
+//@ invariant
+//@     s == text.spec_bytes(), valid_utf8(s), s.len() > 0, valid_first_scalar(s), n == length_of_first_scalar(s),
+//@     is_char_boundary(s, n),
+//@     1 <= k <= n, bytes@ == s.subrange(k, s.len() as int),
+//@     codepoint == pop_partial(s, k),
+//@ decreases n - k,
+//@ ---
+//@ proof {
+//@     assert(bytes@[0] == s[k]);
+//@     lemma_cont_mask(bytes@[0]);
+//@     if k == n { is_char_boundary_iff_not_is_continuation_byte(s, n); }
+//@     assert(k < n);
+//@     lemma_pop_step(s, k, codepoint);
+//@ }
             codepoint <<= 6;
             codepoint |= bytes[0] as u32 & 0x3F;
             bytes = &bytes[1..];
+//@ proof { k = k + 1; }
         }
 
+//@ proof {
+//@     if bytes@.len() > 0 {
+//@         assert(bytes@[0] == s[k]);
+//@         lemma_cont_mask(bytes@[0]);
+//@     }
+//@     assert(k == n);
+//@     lemma_pop_final(s);
+//@     assert(bytes@ == pop_first_scalar(s));
+//@     assert(decode_utf8(s).drop_first() =~= decode_utf8(pop_first_scalar(s)));
+//@ }
         // SAFETY: after all modifications codepoint is valid u32 char
         // and bytes contains valid utf-8 sequence
         unsafe {
@@ -72,14 +141,46 @@ pub fn char_pop_front(text: &str) -> Option<(char, &str)> {
 
 /// Returns length (in bytes) of longest common prefix
 pub fn common_prefix_len(left: &str, right: &str) -> usize {
+//@ ensures
+//@     r <= left.spec_bytes().len(), r <= right.spec_bytes().len(),   // [C03]
+//@     left.spec_bytes().subrange(0, r as int) == right.spec_bytes().subrange(0, r as int),   // [C11,C17]
+//@     is_char_boundary(left.spec_bytes(), r as int),   // [C02,C11,C17]
+//@     // maximal: no longer common prefix ends on a character boundary of `left`
+//@     forall|p: int| r < p <= left.spec_bytes().len() && p <= right.spec_bytes().len() && is_char_boundary(left.spec_bytes(), p)
+//@         ==> left.spec_bytes().subrange(0, p) != right.spec_bytes().subrange(0, p),   // [C11,C17]
     let mut accum1 = Utf8Accum::default();
 
     let mut pos = 0;
     let mut byte_counter = 0;
+//@ let ghost lb = left.spec_bytes();
+//@ let ghost rb = right.spec_bytes();
+//@ let ghost mut upto: int = 0;
+//@ let ghost mut stopped: bool = false;
+//@ proof {
+//@     broadcast use axiom_str_len_bound;
+//@     encode_utf8_valid_utf8(left@);
+//@ }
 
     for __i in 0..(if left.as_bytes().len() < right.as_bytes().len() { left.as_bytes().len() } else { right.as_bytes().len() }) {
+//@ invariant_except_break
+//@     !stopped, upto == __i, byte_counter == __i,
+//@     accum1.wf(), accum1.pending() == scan(Seq::empty(), lb.subrange(0, __i as int)).0,
+//@ invariant
+//@     lb == left.spec_bytes(), rb == right.spec_bytes(), valid_utf8(lb),
+//@     0 <= upto <= lb.len(), upto <= rb.len(),
+//@     stopped ==> upto < lb.len() && upto < rb.len() && lb[upto] != rb[upto],
+//@     forall|j: int| 0 <= j < upto ==> lb[j] == rb[j],
+//@     pos <= upto, is_char_boundary(lb, pos as int),
+//@     forall|j: int| pos < j <= upto ==> !is_char_boundary(lb, j),
+//@ ensures
+//@     !stopped ==> (upto == lb.len() || upto == rb.len()),
         let b1 = left.as_bytes()[__i]; let b2 = right.as_bytes()[__i];
+//@ proof {
+//@     assert(lb.subrange(0, __i + 1).drop_last() =~= lb.subrange(0, __i as int));
+//@     lemma_scan_prefix(lb, __i as int);
+//@ }
         if b1 != b2 {
+//@ proof { stopped = true; }
             break;
         }
         let c1 = accum1.push_byte(b1);
@@ -87,18 +188,46 @@ pub fn common_prefix_len(left: &str, right: &str) -> usize {
         if c1.is_some() {
             pos = byte_counter;
         }
+//@ proof { upto = upto + 1; }
     }
 
+//@ proof {
+//@     assert(lb.subrange(0, pos as int) =~= rb.subrange(0, pos as int));
+//@     assert forall|p: int| pos < p <= lb.len() && p <= rb.len() && is_char_boundary(lb, p)
+//@         implies lb.subrange(0, p) != rb.subrange(0, p) by {
+//@         if p <= upto {
+//@         } else {
+//@             // upto < p: the loop stopped at a mismatch (otherwise upto is the shorter length)
+//@             assert(stopped);
+//@             assert(lb.subrange(0, p)[upto] == lb[upto]);
+//@             assert(rb.subrange(0, p)[upto] == rb[upto]);
+//@         }
+//@     }
+//@ }
     pos
 }
 
 /// Encodes given character as UTF-8 into the provided byte buffer,
 /// and then returns the subslice of the buffer that contains the encoded character.
 pub fn encode_utf8(ch: char, buf: &mut [u8]) -> &str {
+//@ requires old(buf)@.len() >= encode_scalar(ch as u32).len(),   // [C03]
+//@ ensures r.spec_bytes() == encode_scalar(ch as u32), r@ == seq![ch],   // [C17,C02]
     let mut code = ch as u32;
+//@ let ghost orig = code;
+//@ proof {
+//@     char_is_scalar(ch);
+//@     encode_utf8_valid_utf8(seq![ch]); encode_utf8_decode_utf8(seq![ch]);
+//@     reveal_with_fuel(vstd::utf8::encode_utf8, 2);
+//@     assert(seq![ch].drop_first() =~= Seq::<char>::empty());
+//@     assert(vstd::utf8::encode_utf8(seq![ch]) =~= encode_scalar(ch as u32));
+//@ }
 
     if code < 0x80 {
         buf[0] = ch as u8;
+//@ proof {
+//@     assert((code & 0x7F) as u8 == code as u8) by (bit_vector) requires code < 0x80;
+//@     assert(buf@.subrange(0, 1) =~= seq![ch as u8]);
+//@ }
         unsafe {
             return core::str::from_utf8_unchecked(&buf[..1]);
         }
@@ -116,23 +245,56 @@ pub fn encode_utf8(ch: char, buf: &mut [u8]) -> &str {
     };
 
     let first_b_mask = (0x780 >> counter) as u8;
+//@ proof {
+//@     assert((0x780i32 >> 1usize) as u8 == 0xC0u8) by (bit_vector);
+//@     assert((0x780i32 >> 2usize) as u8 == 0xE0u8) by (bit_vector);
+//@     assert((0x780i32 >> 3usize) as u8 == 0xF0u8) by (bit_vector);
+//@ }
 
     let len = counter + 1;
     while counter > 0 {
+//@ invariant
+//@     is_scalar(orig), orig >= 0x80, len == encode_scalar(orig).len(),
+//@     enc_loop_inv(orig, len as int, counter as int, code, buf@),
+//@ decreases counter,
+//@ ---
+//@ proof { lemma_enc_step(orig, len as int, counter as int, code, buf@); }
         buf[counter] = ((code as u8) & 0b0011_1111) | 0b1000_0000;
         code >>= 6;
         counter -= 1;
     }
 
     buf[0] = code as u8 | first_b_mask;
+//@ proof {
+//@     lemma_enc_final(orig, len as int, code, first_b_mask, buf@);
+//@     assert(buf@.subrange(0, len as int) =~= encode_scalar(orig));
+//@ }
 
     unsafe { core::str::from_utf8_unchecked(&buf[..len]) }
 }
 
 pub fn trim_start(input: &str) -> &str {
+//@ ensures
+//@     r.spec_bytes() == trim_start_spec(input.spec_bytes()),   // [C11]
+//@ ---
+//@ proof {
+//@     broadcast use axiom_str_len_bound;
+//@     encode_utf8_valid_utf8(input@);
+//@ }
     if let Some(pos) = crate::verif_specs::position_ne(input.as_bytes(), b' ') {
+//@ proof {
+//@     lemma_leading_spaces(input.spec_bytes(), pos as int);
+//@     lemma_ascii_prefix_boundary(input.spec_bytes(), pos as int);
+//@     is_char_boundary_start_end_of_seq(input.spec_bytes());
+//@ }
         input.get(pos..).unwrap_or("")
     } else {
+//@ proof {
+//@     lemma_leading_spaces(input.spec_bytes(), input.spec_bytes().len() as int);
+//@     reveal_strlit("");
+//@     assert("".spec_bytes() =~= Seq::<u8>::empty());
+//@     assert(trim_start_spec(input.spec_bytes()) =~= Seq::<u8>::empty());
+//@ }
         ""
     }
 }
@@ -141,7 +303,10 @@ pub fn trim_start(input: &str) -> &str {
 ///
 /// # Safety
 /// Length of both slices must be at least `len`
+//@ #[verifier::external_body]
 pub unsafe fn copy_nonoverlapping(src: &[u8], dst: &mut [u8], len: usize) {
+//@ requires src@.len() >= len, old(dst)@.len() >= len,   // documented safety condition  [C03]
+//@ ensures final(dst)@ == src@.subrange(0, len as int) + old(dst)@.subrange(len as int, old(dst)@.len() as int),
     debug_assert!(src.len() >= len);
     debug_assert!(dst.len() >= len);
 
@@ -156,8 +321,12 @@ pub unsafe fn copy_nonoverlapping(src: &[u8], dst: &mut [u8], len: usize) {
 ///
 /// # Safety
 /// mid must be <= slice.len()
+//@ #[verifier::external_body]
 #[cfg(feature = "autocomplete")]
 pub unsafe fn split_at_mut(buf: &mut [u8], mid: usize) -> (&mut [u8], &mut [u8]) {
+//@ requires mid <= old(buf)@.len(),   // documented safety condition  [C03]
+//@ ensures r.0@ == old(buf)@.subrange(0, mid as int), r.1@ == old(buf)@.subrange(mid as int, old(buf)@.len() as int),
+//@     final(buf)@ == final(r.0)@ + final(r.1)@,
     // this exists only because slice::split_at_unchecked is not stable:
     // https://github.com/rust-lang/rust/issues/76014
     let len = buf.len();
